@@ -291,6 +291,12 @@ pub enum Ins {
     Br(u32),
     BrIf(u32),
     BrTable(Vec<u32>, u32),
+    /// function-references / GC branches, restricted to the abstract `func` heap type
+    BrOnNull(u32),
+    BrOnNonNull(u32),
+    /// (depth, source type nullable, target type nullable)
+    BrOnCast(u32, bool, bool),
+    BrOnCastFail(u32, bool, bool),
     Call(u32),
     ReturnCall(u32),
     RefFunc(u32),
@@ -335,6 +341,18 @@ impl Ins {
             Ins::Br(d) => E::Br(*d),
             Ins::BrIf(d) => E::BrIf(*d),
             Ins::BrTable(t, d) => E::BrTable(std::borrow::Cow::Owned(t.clone()), *d),
+            Ins::BrOnNull(d) => E::BrOnNull(*d),
+            Ins::BrOnNonNull(d) => E::BrOnNonNull(*d),
+            Ins::BrOnCast(d, f, t) => E::BrOnCast {
+                relative_depth: *d,
+                from_ref_type: func_ref_type(*f),
+                to_ref_type: func_ref_type(*t),
+            },
+            Ins::BrOnCastFail(d, f, t) => E::BrOnCastFail {
+                relative_depth: *d,
+                from_ref_type: func_ref_type(*f),
+                to_ref_type: func_ref_type(*t),
+            },
             Ins::Call(f) => E::Call(*f),
             Ins::ReturnCall(f) => E::ReturnCall(*f),
             Ins::RefFunc(f) => E::RefFunc(*f),
@@ -401,6 +419,29 @@ impl Ins {
                 match t {
                     Ok(t) => Ins::BrTable(t, targets.default()),
                     Err(_) => unk(),
+                }
+            }
+            Operator::BrOnNull { relative_depth } => Ins::BrOnNull(*relative_depth),
+            Operator::BrOnNonNull { relative_depth } => Ins::BrOnNonNull(*relative_depth),
+            Operator::BrOnCast { relative_depth, from_ref_type, to_ref_type }
+            | Operator::BrOnCastFail { relative_depth, from_ref_type, to_ref_type } => {
+                let is_func = |r: &wasmparser::RefType| {
+                    matches!(
+                        r.heap_type(),
+                        wasmparser::HeapType::Abstract {
+                            shared: false,
+                            ty: wasmparser::AbstractHeapType::Func
+                        }
+                    )
+                };
+                if is_func(from_ref_type) && is_func(to_ref_type) {
+                    if matches!(op, Operator::BrOnCast { .. }) {
+                        Ins::BrOnCast(*relative_depth, from_ref_type.is_nullable(), to_ref_type.is_nullable())
+                    } else {
+                        Ins::BrOnCastFail(*relative_depth, from_ref_type.is_nullable(), to_ref_type.is_nullable())
+                    }
+                } else {
+                    unk()
                 }
             }
             Operator::Call { function_index } => Ins::Call(*function_index),
@@ -521,7 +562,17 @@ impl Ins {
         matches!(self, Ins::Block(_) | Ins::Loop(_) | Ins::If(_) | Ins::Else)
     }
     pub fn is_branch(&self) -> bool {
-        matches!(self, Ins::Br(_) | Ins::BrIf(_) | Ins::BrTable(..))
+        matches!(
+            self,
+            Ins::Br(_) | Ins::BrIf(_) | Ins::BrTable(..) | Ins::BrOnNull(_) | Ins::BrOnNonNull(_) | Ins::BrOnCast(..) | Ins::BrOnCastFail(..)
+        )
+    }
+}
+
+fn func_ref_type(nullable: bool) -> wasm_encoder::RefType {
+    wasm_encoder::RefType {
+        nullable,
+        heap_type: wasm_encoder::HeapType::FUNC,
     }
 }
 
